@@ -1064,6 +1064,12 @@ def call_method(eng, fobj, args, kwargs, fr, node):
             # length (a sound weakening; the ordering the key induces is not represented)
             if base.ty[1] == ANY:
                 return VNONE
+            if base.ty[1] == INT and not args and not kwargs:
+                # a list of ints sorted without key/reverse: the ascending permutation (stdlib_model.sorted_axioms)
+                from . import stdlib_model as SM
+                SM.sorted_axioms(eng, base.t)
+                eng.assign(tnode, V(base.ty, SM.sorted_fn()(base.t)), fr)
+                return VNONE
             new = eng.fresh(base.ty, 'sorted_inplace')
             eng.assume(z3.Length(new.t) == z3.Length(base.t))
             eng.assign(tnode, new, fr)
@@ -1443,7 +1449,7 @@ def icb_yield(eng, node, fr):
         H.external_call(eng, 'yield (suspension)')
         eng.assume(H.heap_read(eng, v, 'called').t)
         if eng.branch(H.heap_read(eng, v, 'failed').t):
-            raise PyRaise('Exception', msg='failure delivered at yield')
+            raise PyRaise('Exception', msg='failure delivered at yield', unknown=True)
         return eng.fresh(ANY, 'yielded_value')
     return v
 
